@@ -74,8 +74,21 @@ def run_one_shard(pid, spec, workdir, idx, timeout):
     return idx, rc, out, res, time.time() - t0
 
 
+def die_with_parent():
+    """Shards run in their own session; make sure an orphan does not survive a killed runner."""
+    try:
+        import ctypes
+        import signal
+        ctypes.CDLL('libc.so.6', use_errno=True).prctl(1, signal.SIGKILL)      # PR_SET_PDEATHSIG
+        if os.getppid() == 1:
+            os._exit(0)
+    except Exception:
+        pass
+
+
 def shard_main(pid, specpath, outpath):
     """Entry point of `python -m pvmon shard`."""
+    die_with_parent()
     mod = load_check(pid)
     with open(specpath, 'rb') as f:
         spec = pickle.load(f)
